@@ -26,6 +26,9 @@ type PairScn struct {
 	OneSided     bool      `json:"one_sided_visibility"`
 	SlowApp      [2]int    `json:"slow_app_ms"` // how long the applications' disconnect / setup callbacks take
 	Disturbs     []Disturb `json:"disturbs"`
+	// Churn: after the final convergence that many further close / reconnect cycles, each followed by a
+	// settled checkpoint (C18: last notification = current state; C11: last of setup/disconnected)
+	Churn int `json:"churn,omitempty"`
 }
 
 type pairResult struct {
@@ -36,6 +39,7 @@ type pairResult struct {
 	Timeline    []string
 	Echo        [2]bool
 	Doubles     int
+	ChurnRuns   int // settled checkpoints reached in the churn phase
 	Accepts     int // TCP connections between the two hubs during the whole scenario
 	Undisturbed bool
 }
@@ -55,6 +59,9 @@ func genPair(r *vc.Rand) *PairScn {
 			Kind: vc.Pick(r, []string{"disconnect:A", "disconnect:B", "cut", "cut", "restart:B", "hide:A", "hide:B", "both-disconnect",
 				"stall-disconnect-cut:A", "stall-disconnect-cut:B", "stall-cut"}),
 			Gap:  time.Duration(vc.Pick(r, []int{0, 20, 100, 400, 600, 1200, 2500})) * time.Millisecond})
+	}
+	if r.Chance(1, 3) {
+		sc.Churn = r.Range(3, 8)
 	}
 	return sc
 }
@@ -300,12 +307,47 @@ func runPair(sc *PairScn) (res pairResult) {
 		// let delayed notifications (500 ms) arrive
 		time.Sleep(900 * time.Millisecond)
 		nw.L.Add("H", "settled", "", "", 0)
-		for _, nd := range []*Node{a, b} {
-			peer := b
-			if nd == b {
-				peer = a
+		checkpoint := func(kind string) {
+			for _, nd := range []*Node{a, b} {
+				peer := b
+				if nd == b {
+					peer = a
+				}
+				nw.L.Add(nd.Name, kind, peer.SKI, "", nd.PairingState(peer.SKI))
 			}
-			nw.L.Add(nd.Name, "final-pairing", peer.SKI, "", nd.PairingState(peer.SKI))
+		}
+		checkpoint("final-pairing")
+		// churn: further connection runs that end in the state reported last (completed again)
+		cr := vc.NewRand(uint64(len(sc.Disturbs))*1000+uint64(sc.Churn), "churn", 0)
+		for k := 0; k < sc.Churn; k++ {
+			op := vc.Pick(cr, []string{"disconnect:A", "disconnect:B", "cut", "both-disconnect"})
+			nw.L.Add("H", "disturb", "", "churn:"+op, 0)
+			switch op {
+			case "disconnect:A":
+				a.Disconnect(b.SKI)
+			case "disconnect:B":
+				b.Disconnect(a.SKI)
+			case "both-disconnect":
+				done := make(chan struct{})
+				go func() { a.Disconnect(b.SKI); close(done) }()
+				b.Disconnect(a.SKI)
+				<-done
+			case "cut":
+				nw.Proxy(a, b).Cut()
+				nw.Proxy(b, a).Cut()
+			}
+			time.Sleep(50 * time.Millisecond)
+			if !WaitFor(40*time.Second, func() bool { ok, _ := pairState(nw, a, b); return ok }) {
+				tl("churn: not reconverged after " + op)
+				break
+			}
+			n0 := accepts()
+			time.Sleep(900 * time.Millisecond)
+			if ok, _ := pairState(nw, a, b); !ok || accepts() != n0 {
+				continue // not a settled point (another run started meanwhile)
+			}
+			res.ChurnRuns++
+			checkpoint("checkpoint-pairing")
 		}
 	}
 	res.Evs = nw.L.Events()
@@ -347,11 +389,13 @@ func monitorAccounting(res pairResult, class func(string)) []hubFinding {
 			case "disconnected":
 				last = "disconnected"
 				discs++
+			case "final-pairing", "checkpoint-pairing":
+				// a settled point: both registries hold one open completed connection
+				class(fmt.Sprintf("setups=%d:disconnects=%d", min(setups, 6), min(discs, 6)))
+				if last != "setup" {
+					out = append(out, hubFinding{"C11", "last-notification-not-setup:converged", fmt.Sprintf("%s: a completed connection is registered, but the last of the setup/disconnect notifications is %q (setups %d, disconnects %d, %s)", who, last, setups, discs, e.Kind)})
+				}
 			}
-		}
-		class(fmt.Sprintf("setups=%d:disconnects=%d", min(setups, 6), min(discs, 6)))
-		if last != "setup" {
-			out = append(out, hubFinding{"C11", "last-notification-not-setup:converged", fmt.Sprintf("%s: a completed connection is registered, but the last of the setup/disconnect notifications is %q (setups %d, disconnects %d)", who, last, setups, discs)})
 		}
 		if discs > setups {
 			// every disconnect notification needs a connection of this SKI that ended; a connection
@@ -370,8 +414,9 @@ func monitorNotifications(res pairResult, class func(string)) []hubFinding {
 		return nil
 	}
 	for _, who := range []string{"A", "B"} {
-		last, final := -1, -1
-		var seq []string
+		mark := 0
+		last, final, lastAtFinal := -1, -1, -1
+		var seq, seqAtFinal []string
 		for _, e := range res.Evs {
 			if e.Who != who {
 				continue
@@ -379,13 +424,30 @@ func monitorNotifications(res pairResult, class func(string)) []hubFinding {
 			if e.Kind == "api:start" {
 				last, seq = -1, nil
 			}
+			if final >= 0 && e.Kind == "pairing" {
+				class("notifications-in-churn-phase")
+			}
 			if e.Kind == "pairing" {
 				last = e.N
 				seq = append(seq, fmt.Sprint(e.N))
 			}
 			if e.Kind == "final-pairing" {
-				final = e.N
+				mark = len(seq)
+				final, lastAtFinal = e.N, last
+				seqAtFinal = append([]string(nil), seq...)
 			}
+			if e.Kind == "checkpoint-pairing" {
+				// churn phase: a settled point after a further connection run
+				class("churn-checkpoint")
+				class("churn-seq:" + strings.Join(seq[mark:], ""))
+				mark = len(seq)
+				if last != e.N {
+					out = append(out, hubFinding{"C18", fmt.Sprintf("last-notification-stale:%d-vs-%d", last, e.N), fmt.Sprintf("%s: after a reconnect the last ServicePairingDetailUpdate state is %d, PairingDetailForSki says %d (sequence %v)", who, last, e.N, seq)})
+				}
+			}
+		}
+		if final >= 0 {
+			last, seq = lastAtFinal, seqAtFinal
 		}
 		class("seq:" + strings.Join(seq, ""))
 		// order clause, decidable when exactly one connection ever existed for the SKI: a successful
